@@ -124,8 +124,9 @@ def run(F, chk):
             def on_stmt(self, s, st):
                 if st is None:
                     return st
-                if s["k"] == "RangeFor" and "blocks" in show(s["range"]) and \
-                        any(x["k"] == "Call" and x.get("fn") == "nifly::NiHeader::BlockDeleted" for x in walk(s["body"])):
+                over_all = (s["k"] == "RangeFor" and "blocks" in show(s["range"])) or \
+                           (s["k"] == "For" and is_node(s.get("cond")) and ("numBlocks" in show(s["cond"]) or "blocks" in show(s["cond"])))
+                if over_all and any(x["k"] == "Call" and x.get("fn") == "nifly::NiHeader::BlockDeleted" for x in walk(s["body"])):
                     return frozenset(f for f in st if f != ("O", "erased"))
                 return st
 
